@@ -23,9 +23,11 @@ NT    == Len(Batch)
 VARIABLES tid, l,
           reqId,     \* record id of the request record of exchange x
           stray,     \* request/response records whose target URI is not a requested URL
-          pairs      \* pairs[x] = <<#begin_request, #end_request, #begin_response, #end_response>>
+          pairs,     \* pairs[x] = <<#begin_request, #end_request, #begin_response, #end_response>>
+          respType,  \* WARC-Type of the response-side record of exchange x ("" : none yet)
+          warcBad    \* the independent reader could not parse the archive
 
-mvars == <<msgs, ref, obsvars, warcDone, tid, l, reqId, stray, pairs>>
+mvars == <<msgs, ref, obsvars, warcDone, tid, l, reqId, stray, pairs, respType, warcBad>>
 
 Ev  == Batch[tid].ev
 Cur == Ev[l]
@@ -43,6 +45,7 @@ MInit ==
   /\ reqBlock = [i \in XS |-> <<>>] /\ respBlock = [i \in XS |-> <<>>]
   /\ linked = [i \in XS |-> FALSE] /\ warcDone = FALSE
   /\ reqId = [i \in XS |-> ""] /\ stray = 0 /\ pairs = [i \in XS |-> <<0, 0, 0, 0>>]
+  /\ respType = [i \in XS |-> ""] /\ warcBad = FALSE
 
 \* the exchange a record belongs to: the one whose URL is the record's target URI (0: none)
 XOfUri(u) == LET S == {i \in XS : Batch[tid].urls[i] = u} IN IF S = {} THEN 0 ELSE CHOOSE i \in S : TRUE
@@ -76,12 +79,30 @@ MNext ==
      /\ respBlock'   = IF rx > 0 /\ e.t # "request" THEN [respBlock EXCEPT ![rx] = e.block] ELSE respBlock
      /\ linked'      = IF rx > 0 /\ e.t # "request"
                        THEN [linked EXCEPT ![rx] = (reqId[rx] # "" /\ e.conc = reqId[rx])] ELSE linked
+     /\ respType'    = IF rx > 0 /\ e.t # "request" THEN [respType EXCEPT ![rx] = e.t] ELSE respType
+     /\ warcBad'     = (warcBad \/ k = "warc_bad")
      /\ stray'       = IF k = "rec" /\ rx = 0 THEN stray + 1 ELSE stray
      /\ warcDone'    = (warcDone \/ k = "warc_end")
 
 MSpec == MInit /\ [][MNext]_mvars
 
 \* monitor-only clauses
+\* the archive can be read back record by record (declared lengths and separators agree)
+WarcParses == ~warcBad
+\* revisit records (--warc-dedup: the table knows this URL with this payload): the block is the header part of what
+\* was received - everything up to and including the first empty line - and nothing else; a revisit is written only
+\* for an exchange the table was asked to treat so
+Dedup == IF "dedup" \in DOMAIN Batch[tid] THEN {Batch[tid].dedup[i] : i \in DOMAIN Batch[tid].dedup} ELSE {}
+EmptyLineEnd(b, i) == b[i] = 10 /\ (i = 1 \/ b[i - 1] = 10 \/ (b[i - 1] = 13 /\ (i = 2 \/ b[i - 2] = 10)))
+HeadLen(b) == IF \E i \in 1..Len(b) : EmptyLineEnd(b, i)
+              THEN CHOOSE i \in 1..Len(b) : EmptyLineEnd(b, i) /\ \A j \in 1..(i - 1) : ~EmptyLineEnd(b, j)
+              ELSE Len(b)
+HeadOf(b) == SubSeq(b, 1, HeadLen(b))
+RevisitOK(x, b) == b = HeadOf(ref[x].bytes) \/ b = HeadOf(ref[x].ibytes \o ref[x].bytes)
+RevisitBlocks == \A x \in XS : (warcDone /\ respType[x] = "revisit")
+                                   => (x \in Dedup /\ (Clean(x) /\ Ok(x) => RevisitOK(x, respBlock[x])))
+RecBlocksM == \A x \in XS : (warcDone /\ Ok(x) /\ reqRecs[x] = 1 /\ respRecs[x] = 1)
+                                 => ((Clean(x) /\ respType[x] # "revisit" => RespOK(x, respBlock[x])) /\ reqBlock[x] = reqSent[x])
 NoStray    == stray = 0
 EventPairs == \A i \in XS : Ok(i) => pairs[i] = <<1, 1, 1, 1>>
 
@@ -91,8 +112,10 @@ BadClause ==
   IF Batch[tid].prop = "C08"
   THEN IF ~NoHang THEN 6 ELSE IF ~TruncIsError THEN 2 ELSE IF ~Payload THEN 1 ELSE IF ~Persist THEN 5
        ELSE IF ~NoOverRead THEN 4 ELSE IF ~CompleteIsOk THEN 3 ELSE 0
-  ELSE IF ~RespBytes THEN 11 ELSE IF ~ReqBytes THEN 12 ELSE IF ~EventPairs THEN 18 ELSE IF ~RecAtMostOne THEN 14
-       ELSE IF ~RecCount THEN 13 ELSE IF ~RecBlocks THEN 15 ELSE IF ~RecLinked THEN 16 ELSE IF ~NoStray THEN 17 ELSE 0
+  ELSE IF ~RespBytes THEN 11 ELSE IF ~ReqBytes THEN 12 ELSE IF ~EventPairs THEN 18 ELSE IF ~WarcParses THEN 19
+       ELSE IF ~RecAtMostOne THEN 14
+       ELSE IF ~RecCount THEN 13 ELSE IF ~RecBlocksM THEN 15 ELSE IF ~RevisitBlocks THEN 20 ELSE IF ~RecLinked THEN 16
+       ELSE IF ~NoStray THEN 17 ELSE 0
 
 Record ==
   /\ IF TLCGet(tid) < l THEN TLCSet(tid, l) ELSE TRUE
